@@ -57,3 +57,109 @@ def run(report, findings, rp):
             continue
         body = c09.REPLAY_CODE.format(text=good["text"], istype=good["istype"], ell=7, delta=3) + f"print(RESULT)\nprint({good['what']!r})\nsys.exit(1)\n"
         report.violations.append({"sig": sig, "what": what, "replay": checklib.write_replay("C18", what, body)})
+
+
+# --------------------------------------------------------------------------- injection of non-token characters into accepted programs
+PROGRAMS = [
+    "int *p = &x, (*fp)(int), a[3];",
+    "void f(int *q, char (*g)(void)) { return; }",
+    "struct s { int *m; } v = { 0 };",
+    "typedef int T; T (*h(T *a))[2];",
+    "int f(int (*)(int), int *, ...);",
+    "void k(void) { x = (int *) p + *q; if (x) y: x++; }",
+    "enum e { A = 1, B } z; int w = sizeof(int *);",
+]
+JUNK = "@`\\"
+
+
+def run_injection(report, findings, rp):
+    """Every position of every program gets one symbolic character from JUNK (characters that are part of
+    no C token outside literals); the real lexer (sre model) feeds the real parser.  Whatever look-ahead,
+    speculative parsing or error handling does, the result must be a ParseError."""
+    import z3
+
+    from symx import symparser
+    from symx.engine import IntervalSet
+    from symx.symtext import SymBase, SymText
+
+    Lmod = symlexer.load()
+    P = symparser.load()
+    junk = IntervalSet([(ord(c), ord(c)) for c in JUNK])
+    cands = {}
+    total = 0
+    for prog in PROGRAMS:
+        try:
+            P.CParser().parse(prog, "f.c")
+        except Exception as e:
+            report.harness_errors.append(f"injection base program does not parse: {prog!r}: {e}")
+            continue
+        for pos in range(len(prog) + 1):
+            n = len(prog) + 1
+            base = SymBase(n, name="j", minlen=n)
+            chars = list(prog[:pos]) + [None] + list(prog[pos:])
+
+            def make_engine(base=base, chars=chars):
+                eng = E.Engine()
+                for i, ch in enumerate(chars):
+                    if ch is None:
+                        eng.base_dom[(base.name, i)] = junk
+                        eng.solver.add(eng.iv_expr((base.name, i), base.chars[i], junk))
+                    else:
+                        eng.base_dom[(base.name, i)] = IntervalSet.of(ord(ch))
+                        eng.solver.add(base.chars[i] == ord(ch))
+                eng.base_dom[(base.name, "len")] = frozenset([len(chars)])
+                eng.solver.add(base.length == len(chars))
+                return eng
+
+            def once(base=base):
+                eng = E.cur()
+                try:
+                    P.CParser(lexer=Lmod.CLexer).parse(SymText(base), "f.c")
+                except P.ParseError:
+                    return {"cls": "rejected", "witness": {"injection-rejected": True}}
+                except (E.HarnessError, E.Abort):
+                    raise
+                except RecursionError:
+                    raise
+                except Exception as e:
+                    return {"cls": "other-exception(C06's subject)"}
+                m = eng.model()
+                return {"cls": "ACCEPTED", "viol": {"sig": "non-token-character-accepted", "what": "input containing a character that is part of no C token was accepted", "text": base.witness(m)}}
+
+            job = E.Job(f"inject:{prog[:20]}@{pos}", make_engine, once, max_samples=0)
+            res = E.run_job(job, workers=1)
+            total += res.paths
+            report.states += res.paths
+            report.transitions += res.stats.get("decisions", 0)
+            report.tsolver += res.tsolver
+            for k, v in res.stats.items():
+                if k.startswith("q_") or k == "cache_hits":
+                    report.queries.inc(k, v)
+            if not res.exhaustive:
+                report.exhaustive = False
+            for k, w in res.witnesses.items():
+                report.witnesses.setdefault(k, w)
+            for v in res.violations:
+                cands.setdefault(v["sig"], []).append(v)
+    report.extra["injection"] = {"programs": PROGRAMS, "characters": JUNK, "positions": "every character position", "paths": total}
+    for sig, vs in sorted(cands.items()):
+        vs.sort(key=lambda v: len(v["text"]))
+        good = None
+        for v in vs[:4]:
+            report.replayed += 1
+            r = rp.ask(op="parse", text=v["text"], filename="f.c")
+            if r.get("outcome") == "ast" and any(c in v["text"] for c in JUNK):
+                good = v
+                break
+        if good is None:
+            report.unreproduced.append({"sig": sig, "text": vs[0]["text"]})
+            continue
+        what = f"{good['what']}: {good['text']!r}"
+        kf = findings.match(sig, good["text"])
+        if kf:
+            report.known_hits[kf.get("id", sig)] = kf["what"]
+            continue
+        body = (f"from pycparser.c_parser import CParser, ParseError\ntext = {good['text']!r}\n"
+                "try:\n    CParser().parse(text, 'f.c')\nexcept ParseError as e:\n    print('rejected (ok):', e); sys.exit(0)\n"
+                "print('VIOLATION reproduced: accepted', repr(text)); sys.exit(1)\n")
+        report.violations.append({"sig": sig, "what": what, "replay": checklib.write_replay("C18", what, body)})
